@@ -157,7 +157,10 @@ static void on_terminate() {
 }
 
 // {"mode":"dispatch","J":..,"R":..,"complexity":[[...per round...]],"usec":[[...]],"seed":..,"maxus":..}
-static void run_dispatch(const json& sc, boost::mpi::communicator& world) {
+static void run_dispatch(const json& sc, boost::mpi::communicator& world0) {
+    // odd seeds: the dispatcher is handed a communicator of its own (same ranks, different context), as the library itself does for
+    // the groups of computeAll_split; anything the dispatcher addresses to MPI_COMM_WORLD is then never received
+    boost::mpi::communicator world = (sc.value("seed", 1) % 2) ? world0.split(0) : world0;
     int R = sc.at("R").get<int>(), J = sc.at("J").get<int>();
     for (int r = 0; r < R; ++r) {
         pMPI::mpi_skel<CountingJob> skel;
@@ -177,7 +180,8 @@ static void run_dispatch(const json& sc, boost::mpi::communicator& world) {
 
 // {"mode":"dispatch_nomaster", ...as dispatch..., "joblist":bool}: rank 0 is a pure master (MPIMaster(..., include_boss = false), the loop of
 // test/mpi_dispatcher_test_nomaster.cpp), the other ranks are workers; joblist selects the constructor that takes the vector of job ids
-static void run_dispatch_nomaster(const json& sc, boost::mpi::communicator& world) {
+static void run_dispatch_nomaster(const json& sc, boost::mpi::communicator& world0) {
+    boost::mpi::communicator world = (sc.value("seed", 1) % 2) ? world0.split(0) : world0;
     int R = sc.at("R").get<int>(), J = sc.at("J").get<int>();
     bool joblist = sc.value("joblist", false);
     const int ROOT = 0;
